@@ -661,6 +661,7 @@ func (u *Unmarshaler) processFieldWithEnvValue(fieldType reflect.Type, value ref
 		return err
 	}
 
+	maybeNewValue(fieldType, value)
 	fieldKind := fieldType.Kind()
 	switch fieldKind {
 	case reflect.Bool:
